@@ -68,6 +68,67 @@ def run(R):
         if not ok:
             R.viol("C14.levels.writer", "level-tags", "pack_data_map must tag the source data map First (once, before the loop) and each re-encrypted level Additional", pk, pk.lines[0])
         R.inst("C14.levels.writer", "K3 who-may-construct", "writer: First once before the loop; Additional(data map of the re-encryption) inside", len(firsts) + len(adds), ok)
+    # (3a') every level's chunks are returned: inside the loop the chunk list is rebuilt from the new level's chunks AND the list so far
+    if pk is not None:
+        from flow import backward_calls
+        g = cfg_of(pk)
+        # the list that leaves the loop: second element of the returned tuple
+        tup = [s for b in pk.blocks if not b["cleanup"] for s in b["stmts"] if s["rv"]["k"] == "agg" and s["rv"]["ak"] == "tuple" and len(s["rv"]["ops"]) == 2
+               and "Chunk" in pk.locals.get(str(op_local(s["rv"]["ops"][0])), "") and "Vec<" in pk.locals.get(str(op_local(s["rv"]["ops"][1])), "")]
+        okacc = False
+        nass = 0
+        if tup:
+            lst = op_local(tup[0]["rv"]["ops"][1])
+            roots = backward(pk, lst) | {lst}
+            vec_locals = {l for l in roots if pk.locals.get(str(l), "").startswith("alloc::vec::Vec<ant_protocol::storage::chunks::Chunk")}
+            encs = [b["id"] for b in pk.blocks if b["term"]["k"] == "call" and not b["cleanup"] and callee_matches(b["term"], [ENC])]
+            inloop = g.reach(tuple(encs)) if encs else set()
+            okacc = True
+            for b in pk.blocks:
+                if b["id"] not in inloop or b["cleanup"]:
+                    continue
+                # assignments (statement or call destination) to the accumulated list inside the loop
+                srcs = []
+                for st in b["stmts"]:
+                    if st["d"][0] in vec_locals and len(st["d"]) == 1 and st["rv"]["k"] == "use" and op_local(st["rv"]["a"]) is not None and op_local(st["rv"]["a"]) not in vec_locals:
+                        srcs.append(op_local(st["rv"]["a"]))
+                t = b["term"]
+                if t["k"] == "call" and t["d"] and t["d"][0] in vec_locals and (t["ngen"] or "").endswith("Iterator::collect") or \
+                        (t["k"] == "call" and t["d"] and t["d"][0] in vec_locals and "collect" in (t["ncallee"] or "")):
+                    srcs.append(("call", t))
+                for src in srcs:
+                    nass += 1
+                    if isinstance(src, tuple):
+                        locs = set()
+                        for a in src[1]["args"]:
+                            if op_local(a) is not None:
+                                l2, _ = backward_calls(pk, op_local(a))
+                                locs |= l2
+                    else:
+                        locs, _ = backward_calls(pk, src)
+                    if not (locs & vec_locals):
+                        okacc = False
+                        R.viol("C14.levels.accumulate", "levels-dropped", "pack_data_map rebuilds the chunk list of an additional level without the chunks collected so far: "
+                               "with two or more additional levels the earlier levels' chunks are never returned (and never uploaded)", pk, (src[1] if isinstance(src, tuple) else b["term"]).get("l"))
+            if nass == 0:
+                okacc = False
+                R.viol("C14.levels.accumulate", "accumulation-missing", "pack_data_map's loop never adds the new level's chunks to the returned list", pk, pk.lines[0])
+        else:
+            R.viol("C14.levels.accumulate", "anchor-missing:return-tuple", "cannot find the (chunk, chunks) tuple pack_data_map returns", pk, pk.lines[0])
+        R.inst("C14.levels.accumulate", "K6 flows-to", "chunks of every data-map level are accumulated into the returned list", nass, okacc)
+    en_ = R.body("C14.chunks.all", SE + "encrypt")
+    if en_ is not None:
+        prep(en_)
+        ta = Taint(en_, through="all")
+        a_ = ta.closure(call_results([ENC])(en_))
+        b_ = ta.closure(call_results([SE + "pack_data_map"])(en_))
+        tup = [s for b in en_.blocks if not b["cleanup"] for s in b["stmts"] if s["rv"]["k"] == "agg" and s["rv"]["ak"] == "tuple" and len(s["rv"]["ops"]) == 2
+               and "Vec<" in en_.locals.get(str(op_local(s["rv"]["ops"][1])), "")]
+        okall = bool(tup) and all(op_local(s["rv"]["ops"][1]) in a_ and op_local(s["rv"]["ops"][1]) in b_ for s in tup)
+        if not okall:
+            R.viol("C14.chunks.all", "returned-chunks", "encrypt() does not return both the data chunks and the additional data-map-level chunks", en_, en_.lines[0])
+        R.inst("C14.chunks.all", "K6 flows-to", "encrypt() returns data chunks ∪ additional-level chunks", len(tup), okall)
+
     # (3b) reader
     fd = R.body("C14.levels.reader", CL + "fetch_from_data_map_chunk::{closure#0}")
     wl = rl = None
